@@ -155,6 +155,7 @@ func chanSend(fr *frame, c value, v value) {
 		panic(targetPanic{v: iface{t: fr.i.runtimeErrorString, v: "send on closed channel"}, where: fr.where()})
 	}
 	ch.q = append(ch.q, v)
+	fr.i.px.tryEffects++
 	fr.i.px.onSync(fr, "send")
 	// an unbuffered channel (or a full buffered one) needs a receiver: the
 	// harness scheduler must have drained it in the callback
@@ -294,6 +295,15 @@ func (px *PathCtx) onSync(fr *frame, kind string) {
 // blocked: the current (only) thread cannot go on until cond holds; give the
 // harness scheduler a chance, then end the path.
 func (px *PathCtx) blocked(fr *frame, what string, cond func() bool) {
+	if px.tryDepth > 0 && (what == "Lock" || what == "RLock") {
+		// a call started with vrt.TryRunAs has to wait for a lock another model thread holds: in a real run it
+		// would wait there until that thread is done. The attempt is given up (TryRunAs returns false) - which
+		// is only sound if the call has not done anything yet.
+		if px.tryEffects > 0 {
+			panic(engineError{"TryRunAs: the injected call blocks on a lock after it already acquired locks or used channels"})
+		}
+		panic(tryAbort{})
+	}
 	if h, ok := px.userData["onblock"]; ok && !px.inBlock {
 		// the block hook may also run inside a sync hook (a second client injected at a synchronisation point
 		// of the first one can itself have to wait for the flusher)
@@ -307,6 +317,9 @@ func (px *PathCtx) blocked(fr *frame, what string, cond func() bool) {
 	}
 	panic(targetPanic{v: iface{t: fr.i.runtimeErrorString, v: "deadlock: " + what + " blocks forever"}, where: fr.where()})
 }
+
+// tryAbort unwinds an attempt started with vrt.TryRunAs (see blocked).
+type tryAbort struct{}
 
 func (px *PathCtx) lockOf(p *value) *lockState {
 	if px.locks == nil {
@@ -331,6 +344,7 @@ func (px *PathCtx) lockOp(fr *frame, p *value, op string) {
 			px.blocked(fr, "Lock", func() bool { return l.writerBy < 0 && l.readers() == 0 })
 		}
 		l.writerBy = me
+		px.tryEffects++
 	case "Unlock":
 		if l.writerBy < 0 {
 			panic(targetPanic{v: iface{t: fr.i.runtimeErrorString, v: "sync: unlock of unlocked mutex"}, where: fr.where()})
@@ -343,6 +357,7 @@ func (px *PathCtx) lockOp(fr *frame, p *value, op string) {
 			px.blocked(fr, "RLock", func() bool { return l.writerBy < 0 })
 		}
 		l.readersBy[me]++
+		px.tryEffects++
 	case "RUnlock":
 		if l.readersBy[me] <= 0 {
 			panic(targetPanic{v: iface{t: fr.i.runtimeErrorString, v: "sync: RUnlock of unlocked RWMutex"}, where: fr.where()})
